@@ -9,7 +9,7 @@
 (* formulas over floats:                                                     *)
 (*   path      P(tau)  = p0 + slope * tau + curv * tau^2        (units u)    *)
 (*   t_profile TP(tau) = 2 + (tau mod 3)                                     *)
-(*   f_profile FP(f,c) = max(0, wd - |f - c|)                   (triangle)   *)
+(*   f_profile FP(f,c) = max(0, wd - (f-c)) above c, max(0, wd - 2(c-f)) below *)
 (*   bandpass  BP(f)   = 1 + ((f div 6) mod 2)                               *)
 (* Expected(c) is the documented per-component average: path and t_profile   *)
 (* are averaged over the left Riemann grid of t_subsamples points per row,   *)
